@@ -164,14 +164,31 @@ def gen_pad():
             for b in vals:
                 for pad in range(0, 4):
                     yield (n, (a, b), pad)
+        # integer indices (every valid one, negative ones included): the element itself must stay selected
+        for i in range(-n, n):
+            for pad in (0, 1, 2, 3, n, n + 1):
+                yield (n, i, pad)
 
 
 def run_pad(case):
     n, enc, pad = case
     s = S(enc)
     X = np.arange(n)
-    ns = M.roi_normalise(s, n)
     got = M.roi_pad(s, pad, n)
+    if isinstance(enc, int):
+        r = R(outcome=f"pad:int:{'neg' if enc < 0 else 'pos'}:{'last' if enc in (-1, n - 1) else 'first' if enc in (0, -n) else 'mid'}")
+        k = int(X[enc])  # numpy decides which element an integer index selects
+        want = slice(max(0, k - pad), min(n, k + 1 + pad))
+        cls = "int-neg" if enc < 0 else "int"
+        if got != want:
+            r.fail(f"roi_pad:value:{cls}", f"roi_pad({enc},{pad},{n})={got} want {want}")
+        if not isinstance(got, slice) or k not in X[got].tolist():
+            r.fail(f"roi_pad:shrinks:{cls}", f"roi_pad({enc},{pad},{n})={got} no longer selects element {k}")
+        nd = M.roi_pad((enc, slice(0, n), enc), pad, (n, n, n))
+        if nd[0] != got or nd[2] != got:
+            r.fail(f"roi_pad:nd:{cls}", f"roi_pad(({enc}, 0:{n}, {enc}),{pad})={nd} vs 1-d {got}")
+        return r
+    ns = M.roi_normalise(s, n)
     r = R(outcome="pad")
     want = slice(max(0, ns.start - pad), min(n, ns.stop + pad))
     if got != want:
